@@ -109,6 +109,7 @@ def run(ctx):
                         if base.op == "param" and (fn.locals[base.a[0]].get("adt") or "").startswith("InnerPointShare"):
                             direct.append((fn, bb))
     ctx.ob("E7.shares", "direct-array-access", not direct, "no function outside the container's impls reads the raw byte array of a point share: %s" % [f.key for f, b in direct][:4], where=where(*direct[0]) if direct else None)
+    check_no_swallowed_decoder_errors(ctx, P)
     ctx.assume("GroupEncoding::from_bytes of both backends rejects points off the curve or outside the prime-order subgroup; vsss-rs Share::as_group_element / combine_shares_group end in GroupEncoding::from_bytes (dependency contracts, blstrs_plus 0.8.18 / bls12_381_plus 0.8.18 / vsss-rs 4.3.8)")
 
 
@@ -139,3 +140,30 @@ def check_point_reader_exact_len(ctx, P, rs, types):
             copied = any(t.op == "mutcall" and B.cname(t) == "slice::<impl [T]>::copy_from_slice" and any(x.op == "param" and x.a[1] == "value" for x in subterms(t)) for t in subterms(arg))
             ok = eq and copied
         ctx.ob("E4.len", ty, ok, "%s::try_from: checked from_bytes under len(value) == len(representation), on the input bytes themselves" % ty, where=where(f))
+
+
+_SWALLOW = ("unwrap_or", "unwrap_or_default", "unwrap_or_else")
+_FALLIBLE = ("combine_shares_group", "combine_shares", "core_combine_signature_shares", "core_combine_public_key_shares", "as_group_element", "as_field_element", "from_bytes", "from_repr", "from_slice")
+
+
+def check_no_swallowed_decoder_errors(ctx, P, rule="E4.no-swallow"):
+    """"...reports an error if any payload is not a valid subgroup point": in a function that returns a Result, the verdict
+    of a checked decoder / share combiner is never replaced by a default value (`.ok().unwrap_or_default()`,
+    `unwrap_or(..)`): the returned value contains no such combinator over a fallible decoding call.  Helpers that the
+    pinned tree does not have are looked through (spliced), so moving the combinator into a helper changes nothing."""
+    n = 0
+    for k, f in sorted(P.fns.items()):
+        if f.from_expansion or not str(f.locals[0].get("ty") or "").startswith("Result<"):
+            continue
+        n += 1
+        r = strip_sites(evaluate(f).ret)
+        bad = []
+        for x in subterms(r):
+            if x.op == "call" and B.cname(x).split("::")[-1] in _SWALLOW and x.a[1]:
+                inner = [B.cname(y) for y in subterms(x.a[1][0]) if y.op == "call" and B.cname(y).split("::")[-1] in _FALLIBLE]
+                if inner:
+                    bad.append("%s over %s" % (B.cname(x), inner[0]))
+        if bad:
+            ctx.ob(rule, k, False, "%s returns a Result but replaces a decoder's / combiner's error by a default value: %s" % (k, "; ".join(bad[:2])), where=where(f))
+    ctx.ob(rule, "census", True, "%d Result-returning functions inspected" % n)
+    ctx.floor(rule, "Result-returning functions", n, 60)
